@@ -126,6 +126,10 @@ class HTMLParser(object):
             self.mainLoop()
 
     def reset(self):
+        # phase objects carry per-parse state (pending table text, swapped
+        # handlers); a parse that was aborted must not leak it into the next
+        self.phases = {name: cls(self, self.tree) for name, cls in
+                       _phases.items()}
         self.tree.reset()
         self.firstStartTag = False
         self.errors = []
